@@ -163,6 +163,9 @@ def work(case):
                                       allow_collisions=True, same_para_bias=1.0)
           else:
             edits = editgen.gen_batch(rng, case["doc"], texts, rng.randint(1, 4), editgen.KINDS_C02, allow_collisions=True)
+            if rng.random() < 0.5:
+                # a target that crosses the boundary of another reviewer's pending insertion
+                edits += [e for e in editgen.gen_cross_ins_any(rng, case["doc"], texts) if not any(e["pi"] == y["pi"] for y in edits)]
             if rng.random() < 0.4:
                 # a target quoted with the bold / italic markers of a formatted run (text put behind / before the markers)
                 edits += editgen.gen_marked_edit(rng, case["doc"], texts, avoid_pi={e["pi"] for e in edits})
